@@ -102,16 +102,16 @@ fn sc_loop_r(shape_ix: u32, nt: u32, kext: u32, light: bool, root_internal: bool
     dm.effects = effects.clone();
     dm.raise_cap = 6;
 
-    // ---- the real code
-    fsm.vh_mainEventLoop(&mut dm);
-
-    // ---- the reference
+    // ---- the reference (first: the bound on the document is an assumption and has to precede the code it constrains)
     let r = Ref { m: &m };
     let mut fe = 0u32;
     let q0: Vec<u32> = if pending == 1 { vec![1] } else { Vec::new() };
     let out = r.run(&conf, &hv, &q0, &externals, &guards, &effects, 6, &mut fe, has_parent, 12);
-    // documents that do not settle within 12 microsteps are outside the bound
+    // documents that do not settle within 12 microsteps (live-locking documents) are outside the bound
     vnd_assume(!out.blocked);
+
+    // ---- the real code
+    fsm.vh_mainEventLoop(&mut dm);
 
     vnd_cover(301);
     // C03: the complete observable trace (events made current, guard evaluations, content bodies) is the reference macrostep trace
